@@ -512,6 +512,6 @@ func testCalls(t *testing.T, fns []FuncEntry) {
 		h.SetExhaustive(call2.Name)
 	}
 	if part("cn") {
-		h.RunProp(t, calln, h.N(6000, 60000))
+		h.RunProp(t, calln, h.N(15000, 125000))
 	}
 }
